@@ -415,6 +415,9 @@ func checkC05(tier string) int {
 		}
 		// a recorded finding is scoped to the configuration it was recorded under: the same reproducer failing under
 		// any other optimisation level is a different violation
+		if kf.AllLevels {
+			continue
+		}
 		if other := knownFailsElsewhere(tc, filepath.Join(verifDir, kf.Replay)); other != "" {
 			newViol++
 			fmt.Printf("VIOLATION property=C05 replay=%s\n  the reproducer of a finding recorded for another configuration also fails under %s\n", filepath.Join(verifDir, kf.Replay), other)
